@@ -289,6 +289,34 @@ def main():
 
     strategy_ddmin.TaskGenerator.__init__ = tg_init_names
 
+    # ddmin adopts a result in TaskGenerator.update(): that is an acceptance whether or not a
+    # write follows.  With interrupt_after_accept the interrupt comes at the next progress
+    # report, i.e. after the statements that follow the adoption (the write among them).
+    tg_update0 = strategy_ddmin.TaskGenerator.update
+
+    def tg_update(self, exprs):
+        res = tg_update0(self, exprs)
+        if os.getpid() == main_pid:
+            try:
+                state['accepted_log'].append(digest(exprs))
+            except Exception:  # noqa
+                state['accepted_log'].append(None)
+            if plan.get('interrupt_after_accept') == len(state['accepted_log']):
+                state['armed_ddmin'] = True
+        return res
+
+    strategy_ddmin.TaskGenerator.update = tg_update
+    progress0 = strategy_ddmin._print_progress
+
+    def progress(msg, update=True):
+        if state.get('armed_ddmin') and os.getpid() == main_pid:
+            state['armed_ddmin'] = False
+            state['interrupted_after_accept'] = len(state['accepted_log'])
+            raise KeyboardInterrupt()
+        return progress0(msg, update)
+
+    strategy_ddmin._print_progress = progress
+
     # ---------------------------------------------------------------- G
     def ids_distinct(exprs):
         seen = set()
